@@ -119,11 +119,28 @@ def write_and_parse(spec, acc, case=None, path=None, keep_mtime_of=None):
     must_reject = not (spec.get("start_tag", True) and spec.get("end_tag", True))
     register_puml(path, comps, rel, must_reject)
     HUB.case = case or {"kind": "diagram", "spec": spec}
+    res = None
     try:
-        PumlParser().parse(path)
+        res = PumlParser().parse(path)
     except Exception:  # noqa: BLE001  (judged by the monitor)
         pass
     acc.evaluated()
+    if res is not None and len(text) % 5 == 0:
+        # the caller edits the result in place (it is the caller's object), then the same text is parsed again
+        try:
+            for v in list(getattr(res, "dependencies", {}).values()):
+                if isinstance(v, set):
+                    v.clear()
+            if isinstance(getattr(res, "dependencies", None), dict):
+                res.dependencies.clear()
+            if isinstance(getattr(res, "all_modules", None), set):
+                res.all_modules.clear()
+            HUB.case = dict(HUB.case, note="second parse of the same text after the first result was edited in place")
+            PumlParser().parse(path)
+            acc.evaluated()
+            acc.count("reparsed_after_the_result_was_edited")
+        except Exception:  # noqa: BLE001
+            pass
     if not keep:
         os.unlink(path)
     return text
@@ -232,7 +249,7 @@ def floors(acc, tier):
         for f in forms:
             if acc.hists.get(name, {}).get(f, 0) == 0:
                 why.append(f"{name} {f} never used")
-    for c, n in (("c06_judged", 1000), ("dependor_by_alias_and_by_name", 10), ("dotted_diagrams", 50), ("c06_tagless_judged", 3), ("line_permutations", 120), ("rewritten_at_same_path_with_same_mtime", 50)):
+    for c, n in (("c06_judged", 1000), ("dependor_by_alias_and_by_name", 10), ("dotted_diagrams", 50), ("c06_tagless_judged", 3), ("line_permutations", 120), ("rewritten_at_same_path_with_same_mtime", 50), ("reparsed_after_the_result_was_edited", 200)):
         if acc.counters[c] < n:
             why.append(f"{c}: only {acc.counters[c]}")
     if acc.hists.get("line_ending", {}).get(repr("\r\n"), 0) < 50:
